@@ -141,6 +141,15 @@ def gen(ck):
                 hs.append([('new', t, []), ('set', n, v)])
                 hs.append([('new', t, []), ('copy', None, [(n, v)])])
     ck.exhaustive['every attribute x {constructor, setattr, copy} x integer window'] = True
+    # ill-typed values that compare EQUAL to the current value (60 == 60.0, 1 == True, (1, 2) == (1.0, 2.0))
+    for t, (_, names) in msgs.TYPES.items():
+        for n in names:
+            for _ in range(3):
+                v = _good(rng, n)
+                eqv = tuple(float(x) for x in v) if n == 'data' else float(v)
+                hs.append([('new', t, [(n, v)]), ('copy', None, [(n, eqv)])])
+                hs.append([('new', t, [(n, v)]), ('set', n, eqv)])
+                hs.append([('new', t, [(n, v)]), ('copy', t, [(n, eqv), ('time', 2)])])
     for _ in range(4000 if ck.tier == 'quick' else 150000):
         t = rng.choice(msgs.TYPE_NAMES + ['foo'] if rng.random() < 0.03 else msgs.TYPE_NAMES)
         names = list(msgs.TYPES[t][1]) if t in msgs.TYPES else []
